@@ -2,12 +2,16 @@
 
 Correspondence of CSEPCatalog.load_ascii_catalogs / csep.load_catalog_forecast / csep.load_stochastic_event_sets with
 Model/AsciiCatalogs.lean (`decode`), plus the direct oracle "the loaded catalogs are the encoded list itself"."""
+import contextlib
+import csv
 import datetime
 import hashlib
+import io
 import itertools
 import os
 import shutil
 import tempfile
+import time
 
 from .core import Driver, frac
 
@@ -29,14 +33,24 @@ THEOREMS = ["AsciiCatalogs.decode_encode", "AsciiCatalogs.decode_encode_length",
 TRUSTED = ["Lean 4.33 kernel", "axioms: propext, Classical.choice, Quot.sound at most",
            "csv.reader tokenisation, float(), int(), datetime.strptime and the CSEPCatalog constructor (list of tuples -> "
            "structured array) are not modelled: the model starts from parsed rows; the harness compares the loaded field "
-           "values with the generating events exactly (float(repr(x)) == x is checked on every generated value)",
+           "values with the generating events exactly (the expected value of a numeric field is float(text); that every "
+           "non-repr spelling reads as the intended double is checked at generation)",
+           "csv.writer as the definition of how a field containing the delimiter, a quote or blanks is written (quoted, "
+           "quotes doubled); TZ + time.tzset() as the way to give the process a local time zone",
            "the generator protocol: the model returns the list of everything yielded, an exception discards it",
            "harness/c12.py generators, file writer and comparison; driver parsing (Proto.lean, Drive/C12.lean)"]
 RULE = ("exhaustive: every forecast of n <= 5 catalogs with 0..2 events each x every placeholder/omitted choice for each "
         "empty non-final catalog x header on/off (2046 files, fresh random events per file; n <= 6, 8190 files, in the "
         "thorough tier); random: 1-40 and 100-600 catalogs, gaps "
         "up to 50 omitted catalogs, 0..40 events per catalog, times with 0/1/2/3/6 fractional digits and unpadded clock "
-        "fields; malformed stream: one row id lowered below its predecessor (or a header line after the first row). Each "
+        "fields; event ids plain, empty, or with ',' '\"' ';' quotes and blanks (written as quoted CSV fields by "
+        "csv.writer; quoting minimal / all fields / id only; LF or CRLF); numeric fields as repr, incl. exponent notation "
+        "(|lon|,|lat|,depth,magnitude < 1e-4) and the other spellings float() reads ('5.', '.5', '+5.0', '1E-05', leading "
+        "zeros, trailing zeros, '%.17e'); every file is loaded with the process's local time zone cycling through UTC, "
+        "Asia/Tokyo, America/Los_Angeles, Europe/London and POSIX TZ strings incl. a half-hour zone (TZ + time.tzset, "
+        "restored afterwards): times in files are UTC by definition; a quarter of the catalogs with >= 2 events repeat an "
+        "event in all six fields (adjacent / distant / all copies; also the last event of one catalog = the first of the "
+        "next); malformed stream: one row id lowered below its predecessor (or a header line after the first row). Each "
         "file is loaded through load_ascii_catalogs, load_catalog_forecast (iterated) and load_stochastic_event_sets. A case "
         "is non-trivial when the file has >= 2 catalogs and at least one empty catalog or is a rejection case; distinct by "
         "the sha1 of the file text")
@@ -47,9 +61,43 @@ _T_HI = int((datetime.datetime(2200, 1, 1) - EPOCH).total_seconds()) * 1000000
 
 
 # ----------------------------------------------------------------------------- generation
+# ---- the process's local time zone must not matter (times in the files are UTC by definition)
+ZONES = [None, "Asia/Tokyo", "America/Los_Angeles", None, "Europe/London", "JST-9", "PST8PDT,M3.2.0,M11.1.0",
+         "NST3:30NDT,M3.2.0,M11.1.0", "Pacific/Kiritimati", "America/St_Johns", "Australia/Lord_Howe"]
+_ZONE_OK = {}
+
+
+@contextlib.contextmanager
+def local_zone(zone):
+    """run the body with the process's local time zone set to `zone` (None = leave as is); always restored"""
+    if zone is None:
+        yield
+        return
+    old = os.environ.get("TZ")
+    try:
+        os.environ["TZ"] = zone
+        time.tzset()
+        if zone not in _ZONE_OK:   # a zone name unknown to the C library silently means UTC
+            _ZONE_OK[zone] = any(time.localtime(t).tm_gmtoff != 0 for t in (0, 15552000, 1600000000, 1610000000))
+        yield
+    finally:
+        if old is None:
+            os.environ.pop("TZ", None)
+        else:
+            os.environ["TZ"] = old
+        time.tzset()
+
+
 def _coord(rng, lo, hi):
     k = rng.random()
-    if k < 0.15:
+    if k < 0.12:
+        # within 1e-4 of zero (Greenwich meridian / equator, shallow depths, tiny magnitudes): repr is in exponent notation
+        x = rng.uniform(1.0, 9.999) * 10.0 ** -rng.randint(5, 12) if rng.random() < 0.7 else \
+            float(rng.choice(["1e-05", "4e-05", "2.5e-05", "9.9e-05", "1e-07", "5e-324", "1.5e-10", "0.0001", "0.00011"]))
+        if lo < 0 and rng.random() < 0.5:
+            x = -x
+        return x
+    if k < 0.24:
         return float(rng.choice([lo, hi, 0.0, -0.0, lo + 0.1, hi - 0.1]))
     if k < 0.5:
         return round(rng.uniform(lo, hi), rng.choice([1, 2, 3, 4]))
@@ -91,65 +139,126 @@ def _time(rng):
 
 
 _IDCH = "abcdefghijklmnopqrstuvwxyzABCDEFGHIJKLMNOPQRSTUVWXYZ0123456789_"
+_IDCH_Q = ',,"" ;\'abcXYZ019._-#|~:/'
+SPECIAL_IDS = ["ci38457511,us7000abcd", 'the "big" one', ",", '"', '""', " ", "a b", " a", "a ", "a,b,c", '"a"', '"a,b"',
+               'a""b', ",,", '",', ',"', "a;b", "lon", "lon,lat", "1,5", "1.5", "1e5", "-1", "None", "x~y", "a|b", "#x",
+               "us7000abcd,ci38457511,nc73649170", "it's", "0,0,0,0,0,0,0", ',,,,,3,']
+
+
+def _spell(rng, x):
+    """a text that float() reads as exactly the double x: repr or one of the other legal spellings"""
+    r = repr(x)
+    k = rng.random()
+    if k < 0.62 or x != x or x in (float("inf"), float("-inf")):
+        return r
+    plain = "e" not in r and "E" not in r
+    neg = r.startswith("-")
+    body = r[1:] if neg else r
+    sign = "-" if neg else ""
+    opts = ["%.17e" % x, ("%.17e" % x).upper(), "%.16e" % x if float("%.16e" % x) == x else "%.17e" % x]
+    if "e" in r:
+        opts += [r.upper(), r.replace("e-0", "e-").replace("e+", "e"), r.replace("e", "E")]
+        m, e = r.split("e")
+        opts += [m + "e" + ("%+04d" % int(e))]                      # 4e-005
+    if not neg:
+        opts.append("+" + r)
+    if plain:
+        opts += [sign + "00" + body, sign + "0" + body, r + "0", r + "000"]
+        if body.endswith(".0"):
+            opts += [r[:-1], r[:-2], r[:-2] + "e0", r[:-2] + "E+00"]  # 5.  5  5e0
+        if body.startswith("0.") and len(body) > 2:
+            opts += [sign + body[1:], ("+" if not neg else "-") + body[1:]]   # .5  +.5
+    t = rng.choice(opts)
+    if float(t) != x or (x == 0 and str(float(t))[0] != str(x)[0]):
+        raise RuntimeError(f"spelling {t!r} does not read as {x!r}")
+    return t
+
+
+def _event_id(rng, k):
+    r = rng.random()
+    if r < 0.12:
+        return ""
+    if r < 0.5:
+        return str(k)
+    if r < 0.75:
+        return "".join(rng.choice(_IDCH) for _ in range(rng.randint(1, 12)))
+    if r < 0.88:
+        return rng.choice(SPECIAL_IDS)
+    return "".join(rng.choice(_IDCH_Q) for _ in range(rng.randint(1, 16)))
 
 
 def _event(rng, k):
     """[lon_repr, lat_repr, mag_repr, time_string, epoch_ms, depth_repr, event_id]"""
     ts, ms = _time(rng)
-    r = rng.random()
-    if r < 0.15:
-        eid = ""
-    elif r < 0.6:
-        eid = str(k)
-    else:
-        eid = "".join(rng.choice(_IDCH) for _ in range(rng.randint(1, 12)))
-    return [repr(_coord(rng, -180, 180)), repr(_coord(rng, -90, 90)), repr(_coord(rng, 0, 9.5)), ts, ms,
-            repr(_coord(rng, 0, 700)), eid]
+    eid = _event_id(rng, k)
+    return [_spell(rng, _coord(rng, -180, 180)), _spell(rng, _coord(rng, -90, 90)), _spell(rng, _coord(rng, 0, 9.5)), ts, ms,
+            _spell(rng, _coord(rng, 0, 700)), eid]
 
 
 HEADER = "lon,lat,mag,time_string,depth,catalog_id,event_id"
 
 
-def build(spec):
-    """spec -> (file text lines, model line tokens, expected catalogs or None when rejection is expected)"""
+def _mid(eid):
+    """driver / canonical form of an event id: '' stays '' (the decoder tests it), anything else 'x' + hex of its bytes"""
+    return "x" + eid.encode("utf-8").hex() if eid else ""
+
+
+def _csv_line(fields, quoting):
+    """one record as csv.writer writes it. quoting: minimal (only where needed) | all | id (id field always quoted)"""
+    buf = io.StringIO()
+    if quoting == "id":
+        csv.writer(buf, lineterminator="").writerow(fields[:-1])
+        return buf.getvalue() + ',"' + fields[-1].replace('"', '""') + '"'
+    csv.writer(buf, lineterminator="", quoting=csv.QUOTE_ALL if quoting == "all" else csv.QUOTE_MINIMAL).writerow(fields)
+    return buf.getvalue()
+
+
+def build_rows(spec):
+    """spec -> (records: list of 7 fields, model line tokens, expected catalogs or None when rejection is expected)"""
     cats, choices, header = spec["cats"], spec["choices"], spec["header"]
-    text, model = [], []
+    rows, model = [], []
     n = len(cats)
     for i, c in enumerate(cats):
         last = i == n - 1
         if not c:
             present = True if last else (choices[i] if i < len(choices) else True)
             if present:
-                text.append(f",,,,,{i},")
+                rows.append(["", "", "", "", "", str(i), ""])
                 model.append(f"~~~~~{i}~")
         else:
             for e in c:
-                text.append(f"{e[0]},{e[1]},{e[2]},{e[3]},{e[5]},{i},{e[6]}")
-                model.append(f"{frac(float(e[0]))}~{frac(float(e[1]))}~{frac(float(e[2]))}~{e[4]}~{frac(float(e[5]))}~{i}~{e[6]}")
+                rows.append([e[0], e[1], e[2], e[3], e[5], str(i), e[6]])
+                model.append(f"{frac(float(e[0]))}~{frac(float(e[1]))}~{frac(float(e[2]))}~{e[4]}~{frac(float(e[5]))}~{i}~{_mid(e[6])}")
     mut = spec.get("mutation")
     expected = [[i, [[e[6], e[4], e[1], e[0], e[5], e[2]] for e in c]] for i, c in enumerate(cats)]
+    hdr = HEADER.split(",")
     if mut:
         kind, k, val = mut
         if kind == "set_id":
-            f = text[k].split(",")
-            f[5] = str(val)
-            text[k] = ",".join(f)
+            rows[k][5] = str(val)
             g = model[k].split("~")
             g[5] = str(val)
             model[k] = "~".join(g)
         elif kind == "header_at":
-            text.insert(k, HEADER)
+            rows.insert(k, list(hdr))
             model.insert(k, "H")
         expected = None
     if header:
-        text.insert(0, HEADER if spec.get("header_case", 0) == 0 else HEADER.replace("lon", "Lon", 1))
+        rows.insert(0, hdr if spec.get("header_case", 0) == 0 else ["Lon"] + hdr[1:])
         model.insert(0, "H")
-    return text, model, expected
+    return rows, model, expected
+
+
+def build(spec):
+    """spec -> (file text lines, model line tokens, expected catalogs or None when rejection is expected)"""
+    rows, model, expected = build_rows(spec)
+    q = spec.get("quoting", "minimal")
+    return [_csv_line(r, q) for r in rows], model, expected
 
 
 def _canon_expected(expected):
     return "ok:" + ";".join(
-        f"{i}|" + ",".join("~".join([e[0], str(e[1]), frac(float(e[2])), frac(float(e[3])), frac(float(e[4])),
+        f"{i}|" + ",".join("~".join([_mid(e[0]), str(e[1]), frac(float(e[2])), frac(float(e[3])), frac(float(e[4])),
                                       frac(float(e[5]))]) for e in evs)
         for i, evs in expected)
 
@@ -163,7 +272,7 @@ def _canon_loaded(catalogs):
             for row in a:
                 eid = row["id"]
                 eid = eid.decode("utf-8") if isinstance(eid, bytes) else str(eid)
-                evs.append("~".join([eid, str(int(row["origin_time"])), frac(row["latitude"]), frac(row["longitude"]),
+                evs.append("~".join([_mid(eid), str(int(row["origin_time"])), frac(row["latitude"]), frac(row["longitude"]),
                                      frac(row["depth"]), frac(row["magnitude"])]))
         cid = c.catalog_id
         out.append(f"{'none' if cid is None else int(cid)}|" + ",".join(evs))
@@ -205,7 +314,8 @@ class Ctx:
 def check_case(ctx, spec, tag, loaders=LOADERS):
     run = ctx.run
     text, model, expected = build(spec)
-    body = "\n".join(text) + ("\n" if spec.get("trailing_newline", True) else "")
+    eol = spec.get("eol", "\n")
+    body = eol.join(text) + (eol if spec.get("trailing_newline", True) else "")
     ctx.k += 1
     path = os.path.join(ctx.dir, f"fc{ctx.k}.csv")
     with open(path, "w", newline="") as f:
@@ -213,22 +323,37 @@ def check_case(ctx, spec, tag, loaders=LOADERS):
     n = len(spec["cats"])
     n_empty = sum(1 for c in spec["cats"] if not c)
     small = len(body) < 4000
-    case = dict(tag=tag, n_cat=n, n_empty=n_empty, header=spec["header"], mutation=spec.get("mutation"),
-                spec=spec if small else None, sha1=hashlib.sha1(body.encode()).hexdigest())
+    zone = spec.get("tz")
+    case = dict(tag=tag, n_cat=n, n_empty=n_empty, header=spec["header"], mutation=spec.get("mutation"), tz=zone,
+                spec=spec if small else None, sha1=hashlib.sha1((body + "|" + str(zone)).encode()).hexdigest())
     full_case = dict(case, spec=spec)
     nontrivial = (n >= 2 and n_empty > 0) or expected is None
     run.case(case, case["sha1"] if nontrivial else None)
     run.count("reject" if expected is None else ("with-empty" if n_empty else "all-present"))
-    # trusted-base fact used by the oracle: float(repr(x)) == x on every written value
+    run.count("tz:" + str(zone))
+    if any(len({tuple(e) for e in c}) < len(c) for c in spec["cats"]):
+        run.count("catalog with events identical in all six fields")
+    if spec.get("quoting", "minimal") != "minimal" or eol != "\n":
+        run.count(f"csv-dialect:{spec.get('quoting', 'minimal')}/{'CRLF' if eol != chr(10) else 'LF'}")
+    # trusted-base fact used by the oracle: the written numeric text is read by float() as a finite double (the expected
+    # value IS float(text); for repr spellings float(repr(x)) == x, for the others the generator has checked the value)
     for c in spec["cats"]:
         for e in c:
             for j in (0, 1, 2, 5):
-                if repr(float(e[j])) != e[j]:
-                    raise RuntimeError(f"float/repr round trip failed on {e[j]}")
+                v = float(e[j])
+                if v != v or v in (float("inf"), float("-inf")):
+                    raise RuntimeError(f"non-finite numeric field {e[j]}")
+                if repr(v) != e[j]:
+                    run.count("numeric field not in repr spelling" + (" (exponent)" if "e" in e[j].lower() else ""))
+                elif "e" in e[j]:
+                    run.count("numeric field in exponent notation (repr)")
+            if any(ch in e[6] for ch in ',"') or e[6] != e[6].strip():
+                run.count("event id needing csv quoting / with blanks")
     want = None if expected is None else _canon_expected(expected)
     outs = {}
     for which in loaders:
-        got = _impl(path, which)
+        with local_zone(zone):
+            got = _impl(path, which)
         outs[which] = got
         if expected is None:
             if not got.startswith("err:"):
@@ -256,6 +381,30 @@ def flush(ctx):
 
 
 # ----------------------------------------------------------------------------- tiers
+def _repeat_events(rng, cats, p=0.25):
+    """events identical in all six fields: inside a catalog (adjacent or distant copies, sometimes a catalog of copies of
+    one event) and across neighbouring catalogs (the rows then differ only in the catalog id). Every copy is an event."""
+    for c in cats:
+        if len(c) >= 2 and rng.random() < p:
+            if rng.random() < 0.2:
+                c[:] = [list(c[0]) for _ in c]
+            else:
+                i = rng.randrange(len(c))
+                j = (i + 1) % len(c) if rng.random() < 0.6 else rng.randrange(len(c))
+                c[j] = list(c[i])
+    full = [c for c in cats if c]
+    for a, b in zip(full, full[1:]):
+        if rng.random() < p / 3:
+            b[0] = list(a[-1])
+    return cats
+
+
+def _dialect(rng, k):
+    """file-level options: local time zone of the loading process (cycled), csv quoting style, line terminator"""
+    return dict(tz=ZONES[k % len(ZONES)], quoting=rng.choice(["minimal"] * 6 + ["all", "id"]),
+                eol="\r\n" if rng.random() < 0.2 else "\n")
+
+
 def _exhaustive(ctx, rng, nmax):
     count = 0
     for n in range(1, nmax + 1):
@@ -271,8 +420,9 @@ def _exhaustive(ctx, rng, nmax):
                     for s in sizes:
                         cats.append([_event(rng, k + j) for j in range(s)])
                         k += s
+                    _repeat_events(rng, cats)
                     spec = dict(cats=cats, choices=choices, header=header, header_case=rng.randrange(2),
-                                trailing_newline=rng.random() < 0.5)
+                                trailing_newline=rng.random() < 0.5, **_dialect(rng, count))
                     check_case(ctx, spec, f"exhaustive-n{n}")
                     count += 1
     return count
@@ -300,14 +450,15 @@ def _random_forecast(rng, big):
             cats.append([_event(rng, i + j) for j in range(m)])
             choices.append(rng.random() < 0.5)
             i += m
+    _repeat_events(rng, cats)
     return dict(cats=cats, choices=choices, header=rng.random() < 0.5, header_case=rng.randrange(2),
-                trailing_newline=rng.random() < 0.5)
+                trailing_newline=rng.random() < 0.5, **_dialect(rng, rng.randrange(len(ZONES))))
 
 
 def _mutate(rng, spec):
     """lower one row's id below its predecessor's (or put a header line after the first row)"""
-    text, _, _ = build(dict(spec, header=False, mutation=None))
-    ids = [int(t.split(",")[5]) for t in text]
+    rows, _, _ = build_rows(dict(spec, header=False, mutation=None))
+    ids = [int(r[5]) for r in rows]
     if len(ids) < 2:
         return None
     if rng.random() < 0.15:
@@ -362,6 +513,10 @@ def run(run, rng, tier):
             check_case(ctx, sp, "malformed")
             done += 1
         flush(ctx)
+        dead = sorted(z for z, ok in _ZONE_OK.items() if not ok)
+        run.extra["local_zones_effective"] = sorted(z for z, ok in _ZONE_OK.items() if ok)
+        if dead:
+            run.assumptions.append(f"time zones {dead} are unknown to the C library here (local time stayed UTC under them)")
     finally:
         ctx.close()
 
